@@ -674,6 +674,7 @@ package otto
 //@   throws o.objectClass != classObject
 //@   ensures o.objectClass == classObject ==> ((result == nil) <==> !has(o.property, name))
 //@   ensures o.objectClass == classObject && result != nil ==> *result == o.property[name]
+//@   ensures result != nil ==> wfMode(result.mode)
 //@ func (*object).getProperty
 //@   trusted
 //@   requires o != nil
@@ -2039,3 +2040,62 @@ package otto
 //@   at_call (*object).call : canPut && setter != nil && arg0 == setter && arg1.kind == valueObject && is(arg1.value, *object) && arg1.value.(*object) == obj && len(arg2) == 1 && arg2[0] == value
 //@   at_call (*object).defineOwnProperty : canPut && setter == nil && prop != nil && arg0 == obj && arg1 == name && is(arg2.value, Value) && arg2.value.(Value) == value && arg2.mode == prop.mode && arg3 == throw
 //@   at_call (*object).defineProperty : canPut && setter == nil && prop == nil && arg0 == obj && arg1 == name && arg2 == value && arg3 == 0o111 && arg4 == throw
+
+// ---------------------------------------------------------------------------
+// builtin_object.go: extensibility, seal, freeze (15.2.3.8-13) (C07)
+// ---------------------------------------------------------------------------
+
+// Object.freeze / Object.seal: every own property handed to [[DefineOwnProperty]] is
+// non-configurable (freeze: and, when it is a data property, non-writable), the definition
+// must throw on failure, the enumeration always continues to the next property, and the
+// object ends up non-extensible.
+//@ func builtinObjectFreeze$1
+//@   props C07
+//@   nosafety
+//@   requires *obj != nil
+//@   abstract_callee (*object).defineOwnProperty
+//@   at_call (*object).defineOwnProperty : arg1 == name && arg3 && dig(arg2.mode, 0) != 1 && (is(arg2.value, Value) && arg2.value.(Value).kind != valueEmpty ==> dig(arg2.mode, 2) != 1)
+//@   ensures result
+//@ func builtinObjectSeal$1
+//@   props C07
+//@   nosafety
+//@   requires *obj != nil
+//@   abstract_callee (*object).defineOwnProperty
+//@   at_call (*object).defineOwnProperty : arg1 == name && arg3 && dig(arg2.mode, 0) == 0
+//@   ensures result
+//@ func builtinObjectFreeze
+//@   props C07
+//@   nosafety
+//@   requires wfCall(call) && argsOK(call.ArgumentList) && call.runtime != nil
+//@   ensures is(result.value, *object) && result.value.(*object) != nil && !result.value.(*object).extensible
+//@   ensures result == old(argOf(call, 0))
+//@ func builtinObjectSeal
+//@   props C07
+//@   nosafety
+//@   requires wfCall(call) && argsOK(call.ArgumentList) && call.runtime != nil
+//@   ensures is(result.value, *object) && result.value.(*object) != nil && !result.value.(*object).extensible
+//@   ensures result == old(argOf(call, 0))
+//@ func builtinObjectPreventExtensions
+//@   props C07
+//@   nosafety
+//@   requires wfCall(call) && argsOK(call.ArgumentList) && call.runtime != nil
+//@   ensures is(result.value, *object) && result.value.(*object) != nil && !result.value.(*object).extensible
+//@   ensures result == old(argOf(call, 0))
+//@ func builtinObjectIsExtensible
+//@   props C07
+//@   nosafety
+//@   requires wfCall(call) && argsOK(call.ArgumentList) && call.runtime != nil
+//@   ensures is(argOf(call, 0).value, *object) && argOf(call, 0).value.(*object) != nil ==> result.kind == valueBoolean && is(result.value, bool) && result.value.(bool) == argOf(call, 0).value.(*object).extensible
+
+// isSealed / isFrozen callbacks: a configurable (frozen: or writable) property makes the
+// answer false and nothing makes it true again; the enumeration always continues.
+//@ func builtinObjectIsSealed$1
+//@   props C07
+//@   nosafety
+//@   requires *obj != nil
+//@   abstract_callee (*object).getProperty
+//@ func builtinObjectIsFrozen$1
+//@   props C07
+//@   nosafety
+//@   requires *obj != nil
+//@   abstract_callee (*object).getProperty
